@@ -46,6 +46,7 @@ ASSUMPTIONS = [
 ]
 
 ABSENT_ID = 900
+KNOWN_CIRCLE = "circle-export-half-radius"      # same bucket name as in C06 (recorded finding, see known_findings.json)
 
 
 # ------------------------------------------------------------------------------------------------ model / observation
@@ -354,6 +355,7 @@ def run_history(r, ctx, scenario_mode):
         sc = None
         net = gn.build_network(net_r)
     step = [-1, None]
+    known = [None]
 
     def detail():
         return "step %d op %r of history %r" % (step[0], step[1], [o["op"] for o in r["ops"]])
@@ -464,16 +466,20 @@ def run_history(r, ctx, scenario_mode):
                 if excl is not None:
                     kw["exclude_lanelet_types"] = {LaneletType(t) for t in excl}
                 new = LaneletNetwork.create_from_lanelet_network(net, **kw)
-                must, may = set(), set()
                 g = None if shape_r is None else gg.shape_geo(shape_r)
-                for lid in model["L"]:
-                    if excl and types[lid] & set(excl):
-                        continue
-                    hit = True if g is None else geom.robust_intersects(g, rings[lid])
-                    if hit is None:
-                        may.add(lid)
-                    elif hit:
-                        must.add(lid)
+
+                def truth(geo):
+                    must_, may_ = set(), set()
+                    for lid in model["L"]:
+                        if excl and types[lid] & set(excl):
+                            continue
+                        hit = True if geo is None else geom.robust_intersects(geo, rings[lid])
+                        if hit is None:
+                            may_.add(lid)
+                        elif hit:
+                            must_.add(lid)
+                    return must_, may_
+                must, may = truth(g)
                 if may:
                     ctx.band_case("cut-band-lanelet")
             else:
@@ -488,12 +494,25 @@ def run_history(r, ctx, scenario_mode):
                     diff[:4], [before[a][b] for a, b in diff[:2]], [after[a].get(b) for a, b in diff[:2]], detail()))
             nobs = observe(new)
             got = set(nobs["L"])
-            if must - got:
-                raise Violation("%s/lanelet-missing" % tag, "lanelets %r belong to the cut-out but are missing (kept "
-                                "%r); %s" % (sorted(must - got), sorted(got), detail()))
-            if got - must - may:
-                raise Violation("%s/lanelet-not-removed" % tag, "lanelets %r do not belong to the cut-out (expected "
-                                "%r); %s" % (sorted(got - must - may), sorted(must), detail()))
+            if not (must <= got <= must | may):
+                attributed = False
+                if name == "cut" and shape_r is not None and shape_r["k"] == "circle":
+                    # recorded finding: Circle.shapely_object is a disc of HALF the radius. Used only to attribute a
+                    # failure that is already established; everything below is still checked relative to the lanelets
+                    # actually kept and the known-signature violation is raised last (end of the history).
+                    must2, may2 = truth(dict(g, r=0.5 * g["r"]))
+                    if must2 <= got <= must2 | may2:
+                        attributed = True
+                        ctx.label("known-circle-half-radius")
+                        if known[0] is None:
+                            known[0] = ("cut-out by a circle kept %r: matches a disc of HALF the radius (truth for the "
+                                        "circle %r, band %r); %s" % (sorted(got), sorted(must), sorted(may), detail()))
+                if not attributed:
+                    if must - got:
+                        raise Violation("%s/lanelet-missing" % tag, "lanelets %r belong to the cut-out but are missing "
+                                        "(kept %r); %s" % (sorted(must - got), sorted(got), detail()))
+                    raise Violation("%s/lanelet-not-removed" % tag, "lanelets %r do not belong to the cut-out "
+                                    "(expected %r); %s" % (sorted(got - must - may), sorted(must), detail()))
             rem = set(model["L"]) - got
             if nontrivial_lanelet_removal(model, rem):
                 nt = True
@@ -535,6 +554,8 @@ def run_history(r, ctx, scenario_mode):
         compare(model, obs, tag, detail)
     if nt:
         ctx.nontrivial()
+    if known[0] is not None:
+        raise Violation(KNOWN_CIRCLE, known[0])
 
 
 def check_scenario(r, ctx):
